@@ -180,7 +180,14 @@ impl<T: Send + Sync> AtomicIter<T> for ConIterOfVec<T> {
     }
 
     fn early_exit(&self) {
-        self.counter().store(self.vec_len)
+        // jumps over the end: positions prev..vec_len are not reserved and can no longer be reserved;
+        // hence, the skipped elements are owned by the caller and are dropped here
+        let prev = self.counter().fetch_and_add(self.vec_len);
+        if prev < self.vec_len {
+            let vec = unsafe { &mut *self.vec.get() };
+            let skipped = unsafe { TakenSlice::new(vec.as_mut_ptr().add(prev), self.vec_len - prev) };
+            drop(skipped);
+        }
     }
 }
 
